@@ -46,6 +46,7 @@ fn main() {
                 "c09" => drive_ops::drive_c09(seed, thorough, &mut out),
                 "cmp-table" => drive_ops::cmp_table(&mut out),
                 "c14" => drive_ops::drive_c14(seed, thorough, &mut out),
+                "rx" => drive_ops::drive_rx(seed, thorough, &mut out),
                 "c02pairs" => drive_ops::drive_c02pairs(seed, thorough, &mut out),
                 "c15" => drive_ops::drive_c15(seed, thorough, &mut out),
                 "c16" => drive_ops::drive_c16(seed, thorough, &mut out),
